@@ -4,6 +4,7 @@ from .core import (ite, band, bor, bnot, implies, const, is_slice_of, smin, smax
                    BList, BBase, PyExc, Unsupported, PathAbort, is_sym, T, TB, mk_bool, mk_int, to_bytes_val,
                    is_byteslike, bcat, bslice, bytes_eq)
 from .interp import Obj, Interp, LoopSpec, BoundMethod, UNBOUND
+from .symlist import SymList, from_list, forall
 from .frontend import FuncVal, ClassVal, EnumMember
 
 MODE = "symbolic"
@@ -96,6 +97,32 @@ class Ctx:
     def loop(self, qualname, anchor, invariant, decreases=None, havoc=None, label=None, ghost_step=None):
         """loop contract given by the harness (may mention the harness's ghost values)"""
         self.I.loops.setdefault(qualname, []).insert(0, LoopSpec(anchor, invariant, decreases, havoc, label, ghost_step))
+
+    def fill(self, value, length):
+        return core.BFill(value, length)
+
+    def fresh_int(self, name, lo=None, hi=None):
+        """an undeclared fresh integer (ghost / nondeterministic result of a callee contract)"""
+        v = self.E.fresh_int(name)
+        if lo is not None:
+            self.E.add(v >= lo)
+        if hi is not None:
+            self.E.add(v <= hi)
+        return SymInt(v)
+
+    def nondet(self, name="nd"):
+        return self.E.choose(2) == 1
+
+    def make_obj(self, cls, **attrs):
+        return Obj(cls, dict(attrs))
+
+    def uf(self, name, nargs=1, boolean=False):
+        """uninterpreted function over integers (ghost description of an input's structure)"""
+        z3 = core.z3
+        f = z3.Function(name, *([z3.IntSort()] * nargs + [z3.BoolSort() if boolean else z3.IntSort()]))
+        if boolean:
+            return lambda *a: mk_bool(f(*[T(x) for x in a]))
+        return lambda *a: SymInt(f(*[T(x) for x in a]))
 
     def bytes_of(self, items):
         return BList(list(items))
